@@ -40,7 +40,8 @@ META = dict(
               "[1, 1e16) x 10^e with e from -14 .. +4 chosen by the solver (covers magnitudes 1e-12 .. 1e12, trailing "
               "zeros, positive exponents); the same entry points once more with the coefficient from 13 digit shapes "
               "(1, 3, 10, 30, 100, 3000, 10500, 29400, 1e6, 123456789, 999999999999, 1e15, 5e15+1) so that real strings "
-              "reach the wire and are compared exactly; decode: binance millisecond and bitstamp microsecond timestamp kernels over "
+              "reach the wire and are compared exactly; each with and without an earlier get_pair_info() call on the same "
+              "exchange object (warm precision cache); decode: binance millisecond and bitstamp microsecond timestamp kernels over "
               "2010..2100, over the reals with symbolic integer timestamps AND for binary64 by a per-binade integer "
               "encoding of the two roundings (fpkernel), under a solver-chosen local time zone; payload wrappers (binance "
               "order / trades / balance, bitstamp order / balance) with symbolic numeric cells; binance "
@@ -59,7 +60,8 @@ META = dict(
              "JSON parsing (C accelerator)", "wrapper classes other than binance Trade / OrderInfo / Balance and bitstamp "
              "OrderStatus / OrderInfo / Balance (the remaining ones are single Decimal(str) / timestamp accessors)"],
     required_covers=["a decimal parameter was transmitted", "an unset option was omitted", "timestamp kernel decided",
-                     "the local time zone was not UTC", "a closed order with trades was queried"],
+                     "the local time zone was not UTC", "a closed order with trades was queried",
+                     "the pair info cache was warm"],
 )
 
 EXPONENTS = list(range(-14, 5))
@@ -154,10 +156,29 @@ def sym_decimal(ctx, name):
     return Decimal(int(ctx.assign[name + "_coefficient"])).scaleb(e)
 
 
+PAIR_INFO_ROUTES = [
+    ("exchangeInfo", {"symbols": [{"symbol": "BTCUSDT", "permissions": ["SPOT", "MARGIN"], "filters": [
+        {"filterType": "PRICE_FILTER", "minPrice": "0.01", "maxPrice": "1000000", "tickSize": "0.01000000"},
+        {"filterType": "LOT_SIZE", "minQty": "0.00001", "maxQty": "9000", "stepSize": "0.00001000"}]}]}),
+    ("trading-pairs-info", [{"name": "BTC/USD", "url_symbol": "btcusd", "base_decimals": 8, "counter_decimals": 0,
+                             "minimum_order": "10.0 USD", "trading": "Enabled", "description": "Bitcoin / U.S. dollar"}]),
+]
+
+
+def _warm_pair_info(ctx, e, pair, sess):
+    """The application may have asked for the pair's precisions before (the exchange object then has them cached):
+    a solver choice.  What is transmitted must not depend on it."""
+    if ctx.flag("pair_info_was_requested_before"):
+        run(e.get_pair_info(pair))
+        ctx.cover("the pair info cache was warm")
+        del sess.calls[:]
+
+
 def _binance(ctx):
-    sess = StubSession()
+    sess = StubSession(routes=PAIR_INFO_ROUTES)
     d = bs.realtime_dispatcher()
     e = bn_exchange.Exchange(d, api_key="key", api_secret="secret", session=sess)
+    _warm_pair_info(ctx, e, PAIR, sess)
     return e, sess
 
 
@@ -237,11 +258,12 @@ def encode_bitstamp(ctx, entry="limit", op="buy", shapes=False, wide=False):
     ctx.scratch["c17_shapes"] = shapes
     ctx.scratch["c17_wide"] = wide
     ctx.patch(bt_helpers, "time", types.SimpleNamespace(time=lambda: 1700000000.123), both_modes=True)
-    sess = StubSession()
+    sess = StubSession(routes=PAIR_INFO_ROUTES)
     d = bs.realtime_dispatcher()
     e = bt_exchange.Exchange(d, api_key="key", api_secret="secret", session=sess)
     operation = BUY if op == "buy" else SELL
     pair = Pair("BTC", "USD")
+    _warm_pair_info(ctx, e, pair, sess)
     amount = sym_decimal(ctx, "amount")
     who = "bitstamp " + entry
     if entry == "market":
